@@ -120,13 +120,13 @@ EXTRA_MODULES = {
             "CodeLimit.Props.C01tree", "CodeLimit.Props.C01pyfull", "CodeLimit.Props.C01text", "CodeLimit.Props.C01full",
             "CodeLimit.Props.C01arrow", "CodeLimit.Props.C01marks", "CodeLimit.Props.C01pytext", "CodeLimit.Props.C01marktext"],
     "C02": ["CodeLimit.Props.Gaps"],
-    "C03": ["CodeLimit.Lemmas.GenTie", "CodeLimit.Props.Gaps"],
+    "C03": ["CodeLimit.Lemmas.GenTie", "CodeLimit.Props.Gaps", "CodeLimit.Props.C12cwd"],
     "C10": ["CodeLimit.Props.Gaps"],
     "C04": ["CodeLimit.Lemmas.GenTie", "CodeLimit.Props.C01marks"],
     "C05": ["CodeLimit.Lemmas.GenTie", "CodeLimit.Props.C05text"],
-    "C09": ["CodeLimit.Props.Pipeline"],
+    "C09": ["CodeLimit.Props.Pipeline", "CodeLimit.Props.C09sel"],
     "C11": ["CodeLimit.Props.C11pat", "CodeLimit.Props.C11patRegex", "CodeLimit.Props.Pipeline"],
-    "C12": ["CodeLimit.Props.C11pat", "CodeLimit.Props.Pipeline"],
+    "C12": ["CodeLimit.Props.C11pat", "CodeLimit.Props.Pipeline", "CodeLimit.Props.C12cwd"],
     "C17": ["CodeLimit.Lemmas.GenTie", "CodeLimit.Props.C01marks"],
 }
 
